@@ -1,6 +1,6 @@
 """Plumbing probe for C12: real MechanicActor / Dispatcher / NodeMechanicActor on a fake actor runtime."""
 import sys, collections, logging
-sys.path.insert(0, "/repo"); logging.disable(logging.CRITICAL)
+sys.path.insert(0, __import__("os").environ.get("VERIF_REPO", "/repo")); logging.disable(logging.CRITICAL)
 import thespian.actors as ta
 from esrally import actor, log, metrics, config
 from esrally.mechanic import mechanic
